@@ -12,7 +12,8 @@ class Graph:
     """Effective graph of a scenario for given source contents (dyndep information taken from the
     *clean* dyndep files, i.e. from the sources they are derived from)."""
 
-    def __init__(self, sc, sources):
+    def __init__(self, sc, sources, unloaded=()):
+        """unloaded: dyndep files whose information is to be left out of this view of the graph"""
         self.sc = sc
         self.sources = sources
         self.by_id = {s["id"]: s for s in sc["stmts"]}
@@ -24,7 +25,7 @@ class Graph:
         # dyndep information: what the (clean) dyndep file says about each statement it serves
         by_out0 = {s["outs"][0]: s for s in sc["stmts"]}
         for s in sc["stmts"]:
-            if s["kind"] != "scan":
+            if s["kind"] != "scan" or s["outs"][0] in unloaded:
                 continue
             for out0, src in s["serves"]:
                 t = by_out0.get(out0)
@@ -113,9 +114,11 @@ class Graph:
         return files, reads_of
 
     # ---- closure
-    def closure(self, targets, extra_inputs=None):
+    def closure(self, targets, extra_inputs=None, unloaded=()):
         """statement ids reachable from the target paths through inputs of every kind, validations of
-        reached statements and (extra_inputs: sid -> [paths]) recorded discoveries."""
+        reached statements and (extra_inputs: sid -> [paths]) recorded discoveries.  `unloaded`: dyndep
+        files whose information never becomes available (their producer failed): what they would have
+        said about the statements they serve is not followed."""
         extra_inputs = extra_inputs or {}
         seen, order = set(), []
         work = list(targets)
@@ -130,7 +133,10 @@ class Graph:
                 continue
             seen.add(s["id"])
             order.append(s["id"])
-            work += self.all_inputs(s) + s["vals"] + list(extra_inputs.get(s["id"], []))
+            if s["dyndep"] and s["dyndep"] in unloaded:
+                work += s["ins"] + s["iins"] + s["oins"] + s["vals"] + list(extra_inputs.get(s["id"], []))
+            else:
+                work += self.all_inputs(s) + s["vals"] + list(extra_inputs.get(s["id"], []))
             if s["dyndep"]:
                 work.append(s["dyndep"])
         return seen
